@@ -12,7 +12,7 @@ From Coq Require Import List Bool Ascii String.
 From UV.Base Require Import Res.
 From UV.Py Require Import PyStr.
 From UV.Schemes Require Import Common Generic LegacyOpenssl Gentoo Debian.
-From UV.Schemes Require Import Rpm Gem Arch Openssl RoundTrips Semver Pypi Maven Nuget Conan RoundTrips2 RoundTrips3 SemverRoundTrip NugetRoundTrip DebianRoundTrip RpmRoundTrip.
+From UV.Schemes Require Import Rpm Gem Arch Openssl RoundTrips Semver Pypi Maven Nuget Conan RoundTrips2 RoundTrips3 LegacyRoundTrip SemverRoundTrip NugetRoundTrip DebianRoundTrip RpmRoundTrip.
 From Coq Require Import ZArith.
 Import ListNotations.
 
@@ -131,6 +131,14 @@ Example C11_maven_conan_roundtrip_inhabited :
   (exists v, conan_ctor (list_ascii_of_string " V1.2-pre+b 1") = Ok v /\ conan_str v = list_ascii_of_string "1.2-pre+b1").
 Proof. split; eexists; split; vm_compute; reflexivity. Qed.
 
+(* legacy openssl: the printed form (three numbers and the patch) of a constructed version constructs the same version
+   again; rests on the known-base test parse makes on its result (a known base has a one-digit build) *)
+Theorem C11_legacy_openssl_roundtrip : forall s v, leg_ctor s = Ok v -> leg_ctor (leg_str v) = Ok v.
+Proof. exact leg_ctor_roundtrip. Qed.
+Example C11_legacy_openssl_roundtrip_inhabited :
+  exists v, leg_ctor (list_ascii_of_string " v1.0.2 -beta1") = Ok v /\ leg_str v = list_ascii_of_string "1.0.2-beta1".
+Proof. eexists. split; vm_compute; reflexivity. Qed.
+
 Print Assumptions C11_generic.
 Print Assumptions C11_gentoo.
 Print Assumptions C11_alpine.
@@ -145,4 +153,5 @@ Print Assumptions C11_nuget_roundtrip.
 Print Assumptions C11_deb_roundtrip.
 Print Assumptions C11_rpm_roundtrip.
 Print Assumptions C11_maven_conan_roundtrip.
+Print Assumptions C11_legacy_openssl_roundtrip.
 Print Assumptions C11_rpm_roundtrip_refuted_without_the_hypothesis.
